@@ -129,7 +129,11 @@ let run_case (line : string) : string =
                 | [id; wgt] -> cur := (syms.(int_of_string id), z_of_int (int_of_string wgt)) :: !cur
                 | _ -> failwith "wheel")) wt;
       let ss = { ss_cats = nat_of_int ncats; ss_funs = List.rev !funs; ss_terms = List.rev !terms } in
-      let npatch = nat_of_int patch and nrows = nat_of_int rws in
+      (* the problem's code/patch length can change during a history (op E): current values, and per slot
+         the smallest patch length its lineage has been created / mutated under (ind_ok_b is monotone in it) *)
+      let cur_rows = ref rws and cur_patch = ref patch in
+      let spatch : int array = Array.make nslots patch in
+      let exp_rows : int array = Array.make nslots rws in
       let mslots : ind list array = Array.make nslots [] in     (* model state *)
       let islots : ind list array = Array.make nslots [] in     (* implementation state *)
       let out = Buffer.create 4096 in
@@ -138,6 +142,11 @@ let run_case (line : string) : string =
       let nops = Array.length w in
       while !pos < nops do
         let op = next () in
+        if op = "E" then begin
+          cur_rows := nexti (); cur_patch := nexti (); incr ri;
+          Buffer.add_string out " ; E # - # 0 #"
+        end else begin
+        let nrows = nat_of_int !cur_rows and npatch = nat_of_int !cur_patch in
         let fields = split_on " # " recs.(!ri) in
         incr ri;
         let draws_s, extra, idump =
@@ -180,6 +189,7 @@ let run_case (line : string) : string =
               let b = nexti () in
               let k = nexti () in
               (* oracle on the implementation: provenance, size, age *)
+              exp_rows.(k) <- exp_rows.(a); spatch.(k) <- min spatch.(a) spatch.(b);
               (try
                  flag "xok" (List.for_all2 (fun (p1, p2) c -> crossover_ok_b p1 p2 c)
                                (List.combine islots.(a) islots.(b)) impl)
@@ -223,9 +233,14 @@ let run_case (line : string) : string =
               let k = nexti () in
               k, lift1 (fun x -> match cse x with Some y -> Some (y, draws) | None -> None) mslots.(k) draws, "-"
           | _ -> failwith ("op " ^ op) in
+        (* the size the result must have, and the patch length its well-formedness is relative to *)
+        (match op with
+         | "N" -> exp_rows.(k) <- !cur_rows; spatch.(k) <- !cur_patch
+         | "M" -> spatch.(k) <- min spatch.(k) !cur_patch
+         | _ -> ());
         (* oracle: well-formedness of what the implementation produced *)
-        flag "wf" (List.for_all (fun i -> ind_ok_b ss npatch i.i_gen) impl);
-        flag "shape" (List.for_all (fun i -> int_of_nat i.i_gen.rows = rws && int_of_nat i.i_gen.cats = ncats) impl);
+        flag "wf" (List.for_all (fun i -> ind_ok_b ss (nat_of_int spatch.(k)) i.i_gen) impl);
+        flag "shape" (List.for_all (fun i -> int_of_nat i.i_gen.rows = exp_rows.(k) && int_of_nat i.i_gen.cats = ncats) impl);
         (match op with
          | "M" ->
              let prev = islots.(k) in
@@ -245,6 +260,7 @@ let run_case (line : string) : string =
              Buffer.add_string out ("NONE # " ^ cnt ^ " # 0"));
         Buffer.add_string out (" #" ^ Buffer.contents flags);
         ignore extra
+        end
       done;
       Buffer.contents out
   | _ -> "BADLINE"
